@@ -124,6 +124,10 @@ func (r *Run) Logf(f string, a ...any) { r.W.Logf(f, a...) }
 // acquisition are resumed and no further one is. Harnesses call it when they leave their exploratory main loop for a
 // drain or an epilogue whose rounds are counted.
 func (r *Run) Calm() {
+	// drains run many rounds inside ONE scheduler step: the step's select priorities would stay in force for all of them,
+	// and a priority order in which an always-ready ticker comes before the data channel starves the data for the whole
+	// drain (Go's own select is random, it cannot). Source order from here on.
+	r.W.SetSalt(0)
 	if !r.W.Park {
 		return
 	}
@@ -308,4 +312,12 @@ func lockPark(prop string, seed uint64) bool {
 		return true
 	}
 	return lockParkProps[prop] && simrt.Mix(seed, 0x9a7c)%3 == 0
+}
+
+// dumpStacksOnViolation (development aid, SIM_STACKS_ON_VIOLATION=1): where every goroutine stands when an oracle fires.
+func dumpStacksOnViolation(rule string) {
+	if os.Getenv("SIM_STACKS_ON_VIOLATION") == "1" {
+		buf := make([]byte, 4<<20)
+		fmt.Fprintf(os.Stderr, "STACKS AT DETECTION %s\n%s\n", rule, buf[:runtime.Stack(buf, true)])
+	}
 }
